@@ -22,6 +22,9 @@ package utils
 //@   let q = ctx.Request().URI().QueryArgs()
 //@   ensures {C02} [deferred-only-for-a-put-with-a-key] ret0 ==> ctx.Method() == "PUT" && keyPart(ctx.Path()) != ""
 //@   ensures {C02} [never-deferred-for-the-bodyless-sub-resources] ret0 ==> !q.Has("tagging") && ctx.Get("X-Amz-Copy-Source") == "" && !q.Has("acl") && !q.Has("retention") && !q.Has("legal-hold")
+// decodes and measures; writes nothing but the debug log
+//@ func IsValidChecksum
+//@   frame none
 //@ func IsSpecialPayload
 //@   pure
 //@ func IsStreamingPayload
@@ -78,6 +81,27 @@ package utils
 //@   at-return {C06} [end-of-stream-passes-only-after-the-digest-matched] when ret1 == io.EOF && errors.Is(readerr, io.EOF) && hr.sum != "" :: \
 //@        ensures called("utils.HashReader.Sum") && result("utils.HashReader.Sum", 0) == hr.sum
 
+// ---- C06 / C02: the reader that defers the request signature -------------------------------------------
+// The end of the body is passed on only after validateSignature answered nil; validateSignature answers nil only when
+// the x-amz-content-sha256 value is one of the special markers or equals the digest of what was read, and only when
+// the signature check itself answered nil (it is handed the declared hash and the number of bytes read).
+//@ func (*AuthReader) validateSignature
+//@   requires ar.r != nil
+//@   at-return {C06} [nil-only-for-the-declared-payload-hash] when ret0 == nil :: ensures IsSpecialPayload(hashPayload) \
+//@        || (called("utils.HashReader.Sum") && result("utils.HashReader.Sum", 0) == hashPayload)
+//@   at-return {C02,C06} [nil-only-after-the-signature-check] when ret0 == nil :: ensures called("utils.CheckValidSignature") && result("utils.CheckValidSignature", 0) == nil \
+//@        && arg("utils.CheckValidSignature", 3) == hashPayload && arg("utils.CheckValidSignature", 5) == old(ar.size)
+//@ func (*AuthReader) Read
+//@   requires ar.r != nil
+//@   at-return {C02,C06} [end-of-body-only-after-verification] when ret1 != nil && errors.Is(ret1, io.EOF) :: \
+//@        ensures called("utils.AuthReader.validateSignature") \
+//@        && (result("utils.AuthReader.validateSignature", 0) == nil || ret1 == result("utils.AuthReader.validateSignature", 0))
+//@   at-call utils.HashReader.Read {C06} [reads-through-the-hashing-reader] requires $0 == ar.r
+// the hashing reader of a plain payload computes the hex SHA-256 of the body
+//@ func NewAuthReader
+//@   at-call utils.NewHashReader {C06} [plain-payloads-are-hashed-with-sha256] requires IsSpecialPayload(hashPayload) || $2 == HashTypeSha256Hex
+//@   ensures {C06} [the-hashing-reader-is-the-one-made-here] ret0 != nil
+
 // ---- C12: aws-chunked readers — a stream is reported as complete only after its end was verified ------------
 // (The rejection half of the property, per function. That the decoded bytes equal the payload for every
 // fragmentation is a statement about the whole parser state machine and is not under contract.)
@@ -117,33 +141,60 @@ package utils
 //@   frame none
 //@ func hmac256
 //@   frame none
+// the two scanning helpers advance the buffered reader they are handed and touch nothing else
+//@ func readAndSkip
+//@   modifies args
+//@ func readAndTrim
+//@   modifies args
 //@ func (*ChunkReader) stashAndSkipHeader
+//@   ensures {C02,C12} [whether-the-raw-stream-ended-is-left-alone] cr.isEOF == old(cr.isEOF)
+//@   ensures {C12} [an-error] ret3 != nil
 //@   ensures {C12} [not-a-clean-end] ret3 != io.EOF
 //@   ensures {C20} [no-size] ret0 == 0
 // the part of a header kept for the next read is a copy: the caller's buffer is overwritten by that read
 //@   ensures {C12} [the-stash-is-a-private-copy] !samearray(cr.stash, header) && len(cr.stash) == len(header)
 //@ func (*ChunkReader) handleRdrErr
+//@   ensures {C02,C12} [whether-the-raw-stream-ended-is-left-alone] cr.isEOF == old(cr.isEOF)
+//@   ensures {C12} [an-error-stays-an-error] in1 != nil ==> ret3 != nil
 //@   ensures {C12} [not-a-clean-end] ret3 != io.EOF
 //@   ensures {C20} [no-size] ret0 == 0
 //@ func (*ChunkReader) parseChunkHeaderBytes
+//@   ensures {C02,C12} [whether-the-raw-stream-ended-is-left-alone] cr.isEOF == old(cr.isEOF)
 //@   arith assumed
 //@   ensures {C12} [not-a-clean-end] ret3 != io.EOF
 //@   ensures {C20} [a-chunk-size-is-a-count] ret3 == nil ==> ret0 >= 0
+// an accepted header carries a signature: the empty string is the decoder's mark for "nothing left to verify"
+//@   ensures {C06,C12} [an-accepted-chunk-header-carries-a-signature] ret3 == nil ==> ret1 != ""
+//@ func (*ChunkReader) expectEnd
+//@   requires cr.r != nil
+//@   ensures {C12} [not-a-clean-end] ret0 != io.EOF
+//@   at-return {C02,C12} [nil-only-at-the-end-of-the-stream] when ret0 == nil :: ensures called("io.ReadFull") && result("io.ReadFull", 1) == io.EOF && arg("io.ReadFull", 0) == old(cr.r)
 //@ func (*ChunkReader) checkSignature
+//@   ensures {C02,C12} [whether-the-raw-stream-ended-is-left-alone] cr.isEOF == old(cr.isEOF)
 //@   ensures {C12} [not-a-clean-end] ret0 != io.EOF
 //@   at-return {C12} [nil-only-for-the-computed-signature] when ret0 == nil :: ensures old(cr.parsedSig) == result("hex.EncodeToString", 0) && called("utils.hmac256")
 //@ func (*ChunkReader) verifyChecksum
+//@   ensures {C02,C12} [whether-the-raw-stream-ended-is-left-alone] cr.isEOF == old(cr.isEOF)
 //@   ensures {C12} [not-a-clean-end] ret0 != io.EOF
 //@   at-return {C12} [nil-only-for-equal-checksums] when ret0 == nil :: ensures result("base64.Encoding.EncodeToString", 0) == cr.parsedChecksum
 //@ func (*ChunkReader) verifyTrailerSignature
+//@   ensures {C02,C12} [whether-the-raw-stream-ended-is-left-alone] cr.isEOF == old(cr.isEOF)
 //@   ensures {C12} [not-a-clean-end] ret0 != io.EOF
 //@   at-return {C12} [nil-only-for-the-computed-signature] when ret0 == nil :: ensures result("hex.EncodeToString", 0) == cr.trailerSig
 //@ func (*ChunkReader) parseAndRemoveChunkInfo
+//@   arith assumed
+//@   ensures {C02,C12} [whether-the-raw-stream-ended-is-left-alone] cr.isEOF == old(cr.isEOF)
 //@   let recursed = called("utils.ChunkReader.parseAndRemoveChunkInfo")
+//@   at-call utils.ChunkReader.parseChunkHeaderBytes {C06,C12} [a-pending-signature-is-verified-before-the-next-header] requires old(cr.parsedSig) == "" \
+//@        || (called("utils.ChunkReader.checkSignature") && result("utils.ChunkReader.checkSignature", 0) == nil)
 //@   at-return {C12} [end-only-after-the-final-signature-was-verified] when ret1 == io.EOF && !recursed :: ensures called("utils.ChunkReader.checkSignature") && result("utils.ChunkReader.checkSignature", 0) == nil
 //@   at-return {C12} [end-only-after-the-trailer-was-verified] when ret1 == io.EOF && !recursed && cr.trailer != "" :: ensures called("utils.ChunkReader.verifyChecksum") && result("utils.ChunkReader.verifyChecksum", 0) == nil \
 //@        && called("utils.ChunkReader.verifyTrailerSignature") && result("utils.ChunkReader.verifyTrailerSignature", 0) == nil
 //@ func (*ChunkReader) Read
+// C02: the request signature is verified by the reader underneath when the raw stream reports its end, so the decoder
+// reports a complete payload only after it has seen that end (and bytes after the terminating chunk are refused)
+//@   at-return {C02,C12} [end-of-stream-only-after-the-raw-stream-ended] when ret1 == io.EOF :: ensures result("io.Reader.Read", 1) == io.EOF \
+//@        || (called("utils.ChunkReader.expectEnd") && result("utils.ChunkReader.expectEnd", 0) == nil)
 //@   at-return {C12} [end-of-stream-only-from-the-terminating-chunk] when ret1 == io.EOF :: ensures called("utils.ChunkReader.parseAndRemoveChunkInfo") && result("utils.ChunkReader.parseAndRemoveChunkInfo", 1) == io.EOF
 //
 // Selection: the decoder returned is the one built for the declared payload type, handed back as it is.
